@@ -272,11 +272,65 @@ func init() {
 		}}
 }
 
+// A reflected route from an iBGP peer (ORIGINATOR_ID + CLUSTER_LIST, so that every loop check of the
+// receive path runs, including the callbacks that consult the neighbour map) against a management
+// critical section: with writer preference modelled, a read lock taken again inside the read-locked
+// receive path while the management goroutine waits for the write lock is a deadlock.
+func init() {
+	name := "c20.ibgp.updCL+addpath"
+	schedScenarios[name] = &schedScenario{Name: name,
+		Setup: func(w *schedWorld) []schedThread {
+			w.addBot(simBotKinds['i'](0))
+			w.addBot(simBotKinds['e'](1))
+			w.advance(time.Second)
+			for _, bb := range w.bots {
+				w.establish(bb)
+			}
+			w.settleSetup()
+			rs := &simRoutesScenario{}
+			b := w.bots[0]
+			attrs, _, nlri := rs.attrs(b, 0, 0)
+			oid, err := bgp.NewPathAttributeOriginatorId(netip.MustParseAddr("7.7.7.7"))
+			if err != nil {
+				panic(err)
+			}
+			attrs = append(attrs, oid, c20ClusterList("10.8.8.8"))
+			msg := bgp.NewBGPUpdateMessage(nil, attrs, []bgp.PathNLRI{{NLRI: nlri}})
+			p0 := w.peer(b)
+			return []schedThread{
+				{"updCL", func() { w.receiveOn(p0, b, msg) }},
+				{"addpath", func() {
+					_ = w.mgmt(func() error {
+						a, fam, n := rs.attrs(nil, 1, 0)
+						path, err := apiutil2Path(&apiutil.Path{Family: fam, Nlri: n, Attrs: a}, false)
+						if err != nil {
+							return err
+						}
+						return w.s.addPathList("", []*table.Path{path})
+					})
+				}},
+			}
+		},
+		Check: func(w *schedWorld) { c02SchedCheck(w, "c20:rib-only") }}
+}
+
+func c20ClusterList(ids ...string) bgp.PathAttributeInterface {
+	var l []netip.Addr
+	for _, s := range ids {
+		l = append(l, netip.MustParseAddr(s))
+	}
+	a, err := bgp.NewPathAttributeClusterList(l)
+	if err != nil {
+		panic(err)
+	}
+	return a
+}
+
 func TestVerif_C20_Sched(t *testing.T) {
 	r := vr.Start(t, "C20", "sched")
 	defer r.Finish()
 	r.Rule = "for every pair of operations from {UPDATE / withdraw on peer A, UPDATE on peer B (same / other prefix), ROUTE-REFRESH from B, session loss of A, Established of a new peer D} x {the same, soft reset in / out, DeletePeer A / B, AddPath, DisablePeer A, policy replacement, AddVrf}, plus {session loss of a DYNAMIC peer} x {DeletePeer of it followed by a new connection from its address}: stateless DFS over the interleavings of the two threads at every lock / atomic / sync.Map operation up to the preemption bound; oracle per complete execution: no deadlock, both threads complete, no panic, consistent final RIBs and views; non-trivial = distinct final daemon state"
-	r.Assumptions = append(r.Assumptions, "scheduling points at synchronisation operations only", "RWMutex writer preference is not modelled", "watchers and gRPC streaming are exercised by the race part only")
+	r.Assumptions = append(r.Assumptions, "scheduling points at synchronisation operations only", "watchers and gRPC streaming are exercised by the race part only")
 	if r.ReplayPath() != "" {
 		var rp schedReplay
 		if err := r.LoadReplay(&rp); err != nil {
@@ -286,11 +340,11 @@ func TestVerif_C20_Sched(t *testing.T) {
 		return
 	}
 	bound, budget := 1, 25*time.Second
-	names := []string{"c20.dyn.downA+delA-acceptA", "c20.updA+softout", "c20.updB+delA", "c20.downA+softin", "c20.estD+setpol", "c20.updBQ+estD", "c20.downA+estD", "c20.rrB+softout", "c20.updA+disableA"}
+	names := []string{"c20.dyn.downA+delA-acceptA", "c20.ibgp.updCL+addpath", "c20.updA+softout", "c20.updB+delA", "c20.downA+softin", "c20.estD+setpol", "c20.updBQ+estD", "c20.downA+estD", "c20.rrB+softout", "c20.updA+disableA"}
 	if vr.Thorough() {
 		budget = 3 * time.Minute
 		names = nil
-		names = append(names, "c20.dyn.downA+delA-acceptA")
+		names = append(names, "c20.dyn.downA+delA-acceptA", "c20.ibgp.updCL+addpath")
 		for _, p := range c20Pairs {
 			names = append(names, "c20."+p[0]+"+"+p[1])
 		}
